@@ -882,14 +882,14 @@ def sg4_signature(pclass, gain):
 
 def sg4_cap(pclass, gain, bits):
     """Known finding F-SG4, symptom part: the error (of full scale, relative to the factor) that one outermost tap left unscaled
-    explains.  The tap is of the order of the stop-band ripple (mapped: <= 0.26 x 2^(1-bits)); unscaled it weighs 1/gain:
-    gain << 1 (integer input to a wider format): unbounded; otherwise 2^(1-bits) x max(1, 1/|gain| - 1)."""
+    explains.  The tap is of the order of the stop-band ripple (mapped: 0.13 .. 1.0 x 2^(1-bits), 8->5 VHQ the largest); left at 1
+    instead of gain it is off by |1/gain - 1| relative to the factor: |gain| << 1 (integer input to a wider format): unbounded;
+    otherwise 4 x 2^(1-bits) x max(1, |1/gain - 1|)."""
     if not sg4_signature(pclass, gain):
         return 0.0
-    g = abs(gain)
-    if g < 2.0 ** -8:
+    if abs(gain) < 2.0 ** -8:
         return float("inf")
-    return 2.0 ** (1 - bits) * max(1.0, 1.0 / g - 1.0)
+    return 4 * 2.0 ** (1 - bits) * max(1.0, abs(1.0 / gain - 1.0))
 
 
 ACTIVE = set()           # ids of the findings listed as `known` for the running property (set_active)
